@@ -128,6 +128,17 @@ MUTANTS = [
      "                    best_fit = note_values[find_minimal_distance(current_duration, note_values)]",
      "qnl: best fit chosen among all values instead of the fitting ones"),
     # ---------------------------------------------------------------- C07
+    ("c07x", "C07", R, """        for position in sorted(open_positions.values(), reverse=True):
+            del messages_normalized[position]""", """        for position in sorted(open_positions.values(), reverse=True):
+            messages_normalized.remove(messages_normalized[position])""",
+     "normalise: unclosed note-ons removed by object look-up again (first occurrence of a shared Message object; the state before fix d9ca67b)"),
+    ("c07y", "C07", R, """        for position in sorted(open_positions.values(), reverse=True):""", """        for position in sorted(open_positions.values()):""",
+     "normalise: unclosed positions deleted front to back (later positions shift: wrong messages deleted when >= 2 notes stay open)"),
+    ("c07z", "C07", R, """                    open_positions[(msg.channel, msg.note)] = len(messages_normalized)""",
+     """                    open_positions[msg.note] = len(messages_normalized)""",
+     "normalise: positions of open note-ons keyed by pitch only (same pitch left open on two channels: only one is removed; closing one forgets the other)"),
+    ("c10y", "C10", R, """        for position in sorted(open_positions.values(), reverse=True):""", """        for position in sorted(open_positions.values()):""",
+     "normalise (used by Bar): unclosed positions deleted front to back, a wait or signature is deleted instead (over-long input accepted / IndexError)"),
     ("c07a", "C07", R, """                    # Skip message if note is already open
                     if len(note_list) != 1:""", """                    # Skip message if note is already open
                     if len(note_list) > 2:""", "normalise: the first re-trigger of a sounding note is kept"),
@@ -139,9 +150,9 @@ MUTANTS = [
                 Message(message_type=MessageType.WAIT, channel=default_channel, time=wait_buffer))""", "normalise: trailing rest dropped"),
     ("c07c", "C07", R, "                    if msg.key != current_key:", "                    if msg.key != current_ts_numerator:",
      "normalise: key-signature de-duplication compares against the time-signature state"),
-    ("c07d", "C07", R, """        for channel in open_messages.keys():
-            for key in open_messages[channel].keys():""", """        for channel in list(open_messages.keys())[:1]:
-            for key in open_messages[channel].keys():""", "normalise: unclosed notes removed on the first channel only"),
+    ("c07d", "C07", R, """        for position in sorted(open_positions.values(), reverse=True):
+            del messages_normalized[position]""", """        for position in sorted(open_positions.values(), reverse=True)[:1]:
+            del messages_normalized[position]""", "normalise: only the last unclosed note is removed"),
     # ---------------------------------------------------------------- C08
     ("c08x", "C08", R, """                        if msg.message_type in [MessageType.CONTROL_CHANGE, MessageType.PROGRAM_CHANGE])
 
@@ -253,9 +264,9 @@ MUTANTS = [
         self.normalise()""", "merge takes at most three arguments into account"),
     ("c15c", "C15", R, """                    if len(note_list) != 0:
                         continue
-                # Remove double time signatures""", """                    if len(note_list) != 0 and wait_buffer == 0:
+                    open_positions.pop((msg.channel, msg.note), None)""", """                    if len(note_list) != 0 and wait_buffer == 0:
                         continue
-                # Remove double time signatures""", "normalise (used by merge): an inner note-off closes a fused note when a rest precedes it"),
+                    open_positions.pop((msg.channel, msg.note), None)""", "normalise (used by merge): an inner note-off closes a fused note when a rest precedes it"),
     # ---------------------------------------------------------------- C16
     ("c16a", "C16", B, "        cpy = self.__class__(self.sequence.copy(),", "        cpy = self.__class__(self.sequence,", "Bar.copy shares the sequence"),
     ("c16b", "C16", S, "    def split(self, capacities: list[int], copy_messages: bool = True) -> list[Sequence]:",
